@@ -1,20 +1,30 @@
 package main
 
-// Glue harness for the storage write-path properties (C01, C05, C06): the same kind of
-// schedules as harness/storage/storage_test.go, but driven through the REAL broker
-// handler: handler.handleProduce (acks=-1, flushOnAck default) -> getPartitionLog ->
-// NewRecordBatchFromBytes -> AppendBatch -> Flush -> the real onFlush closure -> the real
-// metadata.InMemoryStore.UpdateOffsets. Only the S3 client is a fake (uploads block until
-// released with an outcome) and the store is wrapped so that UpdateOffsets blocks until
-// released. AppendBatch and Flush of one request run back to back here (the handler has
-// no scheduling point between them), so these schedules are coarser than the ones of
-// the pkg/storage harness. Implementation-side oracle only (no model comparison):
-//   C01  success code => the record set (with the response's base offset patched in)
-//        is inside an S3 .kfs body whose .index object parses, and stays there
-//   C05  store.NextOffset never exceeds 1 + the last offset of such segments
-//   C06  after dropping the handler and building a new one over the same S3 + store,
-//        every acknowledged batch is returned by the partition log's Read at its offset,
-//        and later success responses carry base offsets above every acknowledged one.
+// Glue harness for the storage write-path properties (C01, C02, C05, C06), driven through
+// the REAL broker handler: handler.handleProduce (acks=-1, flushOnAck default) ->
+// getPartitionLog (singleflight init, NextOffset, auto-create via ensureTopic/CreateTopic,
+// RestoreFromS3, offset sync) -> NewRecordBatchFromBytes -> AppendBatch -> Flush -> the real
+// onFlush closure -> the real metadata.InMemoryStore.UpdateOffsets, and handler.handleFetch.
+// Only the S3 client is a fake (uploads block until released with an outcome; it records the
+// prefixes it is asked to list) and the store is wrapped so that UpdateOffsets -- and, in
+// "first touch" cases, NextOffset and CreateTopic -- block until released.
+//
+// The partition under test is partition 1 of a topic that does not exist at the start (the
+// first produce auto-creates it); S3 may already hold objects of partitions 10 and 13 of the
+// same topic (ids of which "1" is a decimal prefix) with more data than partition 1 gets.
+// Schedules: 2-3 concurrent producers incl. concurrent FIRST touch of the partition, S3
+// upload outcomes, store outcomes in any order, Fetch requests at any point (also while a
+// produce is in flight), crash = new handler over the same S3 + store (so the restart goes
+// through the real getPartitionLog with the store behind S3 by any amount, incl. 0).
+// AppendBatch and Flush of one request run back to back here (the handler has no scheduling
+// point between them). Implementation-side oracle only:
+//   C01  success code => the record set (response base offset patched in) is inside a .kfs body
+//        of THIS partition whose .index parses, and stays there; one PartitionLog per partition
+//   C02  acknowledged offset ranges are pairwise disjoint, also across restarts
+//   C05  store.NextOffset never exceeds 1 + the last offset of this partition's segments
+//   C06  after a restart every acknowledged batch is returned by Read at its offset; records
+//        shown to a consumer by Fetch are in S3 when shown and their offsets are never given
+//        to other records; bases after restart lie above every acknowledged offset.
 
 import (
 	"bytes"
@@ -29,6 +39,7 @@ import (
 	"sync"
 	"testing"
 	"testing/synctest"
+	"time"
 
 	"github.com/KafScale/platform/pkg/metadata"
 	"github.com/KafScale/platform/pkg/protocol"
@@ -36,16 +47,23 @@ import (
 	"github.com/twmb/franz-go/pkg/kmsg"
 )
 
-const sbNT = 3
+const (
+	sbNT    = 3
+	sbTopic = "vt"
+	sbPart  = int32(1)
+)
 
 type sbAct struct {
-	K   string `json:"k"` // produce|seg|idx|cb|crash
+	K   string `json:"k"` // produce|seg|idx|cb|no|ct|fetch|crash
 	T   int    `json:"t,omitempty"`
 	Ok  bool   `json:"ok,omitempty"`
 	Raw []byte `json:"raw,omitempty"`
+	Off int64  `json:"off,omitempty"` // fetch offset
 }
 type sbCase struct {
-	Plan []sbAct `json:"plan"`
+	GateInit bool    `json:"gate_init"` // NextOffset / CreateTopic of produce requests block until released
+	Foreign  bool    `json:"foreign"`   // S3 holds objects of partitions 10 and 13 of the same topic
+	Plan     []sbAct `json:"plan"`
 }
 
 type sbTid struct{}
@@ -56,10 +74,12 @@ type sbGate struct {
 }
 
 type sbWorld struct {
-	mu   sync.Mutex
-	objs map[string][]byte
-	pend map[string]*sbGate
-	dead map[int]bool // epochs that crashed
+	mu       sync.Mutex
+	objs     map[string][]byte
+	pend     map[string]*sbGate
+	dead     map[int]bool // epochs that crashed
+	listed   []string     // prefixes ListSegments was asked for
+	gateInit bool
 }
 
 type sbS3 struct {
@@ -134,35 +154,66 @@ func (s *sbS3) DownloadIndex(ctx context.Context, key string) ([]byte, error) {
 func (s *sbS3) ListSegments(ctx context.Context, prefix string) ([]storage.S3Object, error) {
 	s.w.mu.Lock()
 	defer s.w.mu.Unlock()
+	s.w.listed = append(s.w.listed, prefix)
 	out := []storage.S3Object{}
 	for k, d := range s.w.objs {
 		if strings.HasPrefix(k, prefix) {
 			out = append(out, storage.S3Object{Key: k, Size: int64(len(d))})
 		}
 	}
+	sort.Slice(out, func(i, j int) bool { return out[i].Key > out[j].Key })
 	return out, nil
 }
 
-// the real in-memory store; only UpdateOffsets is delayed / made to fail
+// the real in-memory store; UpdateOffsets (and, in first-touch cases, NextOffset and
+// CreateTopic) of produce requests are delayed / made to fail
 type sbStore struct {
 	metadata.Store
 	w     *sbWorld
 	epoch int
 }
 
-func (s *sbStore) UpdateOffsets(ctx context.Context, topic string, partition int32, lastOffset int64) error {
+func (s *sbStore) gated(ctx context.Context, kind string, v int64) (bool, bool) {
 	tid := sbTidOf(ctx)
-	if tid < 0 { // getPartitionLog's own sync
-		return s.Store.UpdateOffsets(ctx, topic, partition, lastOffset)
+	if tid < 0 {
+		return false, true
 	}
-	ok := s.w.wait(fmt.Sprintf("cb:%d", tid), lastOffset)
+	ok := s.w.wait(fmt.Sprintf("%s:%d", kind, tid), v)
 	s.w.mu.Lock()
 	dead := s.w.dead[s.epoch]
 	s.w.mu.Unlock()
-	if !ok || dead {
+	return true, ok && !dead
+}
+
+func (s *sbStore) UpdateOffsets(ctx context.Context, topic string, partition int32, lastOffset int64) error {
+	if g, ok := s.gated(ctx, "cb", lastOffset); g && !ok {
 		return errors.New("injected: etcd put failed")
 	}
 	return s.Store.UpdateOffsets(ctx, topic, partition, lastOffset)
+}
+
+func (s *sbStore) NextOffset(ctx context.Context, topic string, partition int32) (int64, error) {
+	s.w.mu.Lock()
+	gi := s.w.gateInit
+	s.w.mu.Unlock()
+	if gi {
+		if g, ok := s.gated(ctx, "no", 0); g && !ok {
+			return 0, errors.New("injected: etcd get failed")
+		}
+	}
+	return s.Store.NextOffset(ctx, topic, partition)
+}
+
+func (s *sbStore) CreateTopic(ctx context.Context, spec metadata.TopicSpec) (*protocol.MetadataTopic, error) {
+	s.w.mu.Lock()
+	gi := s.w.gateInit
+	s.w.mu.Unlock()
+	if gi {
+		if g, ok := s.gated(ctx, "ct", 0); g && !ok {
+			return nil, errors.New("injected: etcd txn failed")
+		}
+	}
+	return s.Store.CreateTopic(ctx, spec)
 }
 
 type sbReq struct {
@@ -175,14 +226,19 @@ type sbReq struct {
 	stored []byte
 }
 
+func (r *sbReq) last() int64 { return r.base + int64(int32(binary.BigEndian.Uint32(r.raw[23:27]))) }
+
 type sbExec struct {
 	t       *testing.T
+	cs      sbCase
 	w       *sbWorld
 	inner   metadata.Store
 	h       *handler
 	epoch   int
 	running [sbNT]*sbReq
 	reqs    []*sbReq
+	logsEp  map[*storage.PartitionLog]bool
+	shown   map[int64][]byte // offset -> record batch bytes a Fetch returned for it
 	fail    string
 	failKey string
 	tags    map[string]bool
@@ -195,6 +251,10 @@ func (x *sbExec) setFail(k, w string) {
 	}
 }
 
+func (x *sbExec) ownPrefix() string {
+	return fmt.Sprintf("%s/%s/%d/", x.h.s3Namespace, sbTopic, sbPart)
+}
+
 func (x *sbExec) newHandler() {
 	if x.h != nil && x.h.coordinator != nil {
 		x.h.coordinator.Stop() // its cleanup goroutine would otherwise outlive the bubble
@@ -202,6 +262,7 @@ func (x *sbExec) newHandler() {
 	x.epoch++
 	store := &sbStore{Store: x.inner, w: x.w, epoch: x.epoch}
 	x.h = newHandler(store, &sbS3{w: x.w, epoch: x.epoch}, protocol.MetadataBroker{NodeID: 1, Host: "localhost", Port: 19092}, testLogger())
+	x.logsEp = map[*storage.PartitionLog]bool{}
 }
 
 func (x *sbExec) has(key string) bool {
@@ -222,7 +283,7 @@ func (x *sbExec) release(key string, ok bool) {
 }
 
 func (x *sbExec) drain() { // let every in-flight request of a dead epoch finish
-	for i := 0; i < 100; i++ {
+	for i := 0; i < 200; i++ {
 		synctest.Wait()
 		x.w.mu.Lock()
 		keys := []string{}
@@ -246,8 +307,8 @@ func (x *sbExec) produce(tid int, raw []byte) {
 	h := x.h
 	go func() {
 		ctx := context.WithValue(context.Background(), sbTid{}, tid)
-		req := &kmsg.ProduceRequest{Acks: -1, TimeoutMillis: 1000, Topics: []kmsg.ProduceRequestTopic{{Topic: "orders",
-			Partitions: []kmsg.ProduceRequestTopicPartition{{Partition: 0, Records: raw}}}}}
+		req := &kmsg.ProduceRequest{Acks: -1, TimeoutMillis: 1000, Topics: []kmsg.ProduceRequestTopic{{Topic: sbTopic,
+			Partitions: []kmsg.ProduceRequestTopicPartition{{Partition: sbPart, Records: raw}}}}}
 		payload, err := h.handleProduce(ctx, &protocol.RequestHeader{CorrelationID: 1}, req)
 		code, base := int16(-1), int64(-1)
 		if err == nil && payload != nil {
@@ -262,14 +323,19 @@ func (x *sbExec) produce(tid int, raw []byte) {
 	}()
 }
 
+// this partition's S3 objects only
 func (x *sbExec) s3segs() (map[int64][]byte, map[int64]bool, int64) {
 	bodies, hasIdx := map[int64][]byte{}, map[int64]bool{}
 	end := int64(0)
+	own := x.ownPrefix()
 	x.w.mu.Lock()
 	defer x.w.mu.Unlock()
 	lasts := map[int64]int64{}
 	for k, d := range x.w.objs {
-		name := k[strings.LastIndex(k, "/")+1:]
+		if !strings.HasPrefix(k, own) {
+			continue
+		}
+		name := k[len(own):]
 		var base int64
 		if strings.HasSuffix(name, ".kfs") && len(d) >= 48 {
 			fmt.Sscanf(strings.TrimSuffix(strings.TrimPrefix(name, "segment-"), ".kfs"), "%d", &base)
@@ -290,11 +356,37 @@ func (x *sbExec) s3segs() (map[int64][]byte, map[int64]bool, int64) {
 	return bodies, hasIdx, end
 }
 
+func sbDurable(bodies map[int64][]byte, hasIdx map[int64]bool, rec []byte) bool {
+	for b, body := range bodies {
+		if hasIdx[b] && bytes.Contains(body, rec) {
+			return true
+		}
+	}
+	return false
+}
+
 func (x *sbExec) oracle(after string) {
 	bodies, hasIdx, end := x.s3segs()
+	// one PartitionLog per partition and handler
+	x.h.logMu.RLock()
+	if m, ok := x.h.logs[sbTopic]; ok {
+		if pl, ok := m[sbPart]; ok && pl != nil {
+			x.logsEp[pl] = true
+		}
+	}
+	x.h.logMu.RUnlock()
+	if len(x.logsEp) > 1 {
+		x.setFail("second-partition-log", fmt.Sprintf("the handler registered %d different PartitionLog objects for %s/%d (%s): two logs hand out the same offsets and write the same segment keys", len(x.logsEp), sbTopic, sbPart, after))
+	}
 	x.w.mu.Lock()
 	reqs := append([]*sbReq(nil), x.reqs...)
+	listed := append([]string(nil), x.w.listed...)
 	x.w.mu.Unlock()
+	for _, p := range listed {
+		if p != x.ownPrefix() {
+			x.tags["listed-other-prefix"] = true
+		}
+	}
 	for _, r := range reqs {
 		x.w.mu.Lock()
 		done, code, base := r.done, r.code, r.base
@@ -307,34 +399,73 @@ func (x *sbExec) oracle(after string) {
 			r.stored = append([]byte(nil), r.raw...)
 			binary.BigEndian.PutUint64(r.stored[0:8], uint64(base))
 			x.tags["ack"] = true
-			if r.epoch > 1 && base <= x.maxAck && x.maxAck >= 0 {
-				prev := false
-				for _, o := range reqs {
-					if o.acked && o.epoch < r.epoch && o.base+int64(int32(binary.BigEndian.Uint32(o.raw[23:27]))) >= base {
-						prev = true
+			for _, o := range reqs {
+				if o == r || !o.acked {
+					continue
+				}
+				if o.base <= r.last() && r.base <= o.last() {
+					key := "offset-assigned-twice"
+					if o.epoch < r.epoch {
+						key = "offset-reuse-after-restart"
 					}
-				}
-				if prev {
-					x.setFail("offset-reuse-after-restart", fmt.Sprintf("success response with base offset %d after restart, but offset %d was acknowledged before the crash", base, x.maxAck))
+					x.setFail(key, fmt.Sprintf("success responses for offsets [%d,%d] and [%d,%d] (%s)", o.base, o.last(), r.base, r.last(), after))
 				}
 			}
-			if l := base + int64(int32(binary.BigEndian.Uint32(r.raw[23:27]))); l > x.maxAck {
-				x.maxAck = l
+			if r.last() > x.maxAck {
+				x.maxAck = r.last()
+			}
+			for off := r.base; off <= r.last() && off < r.base+64; off++ {
+				if rec, ok := x.shown[off]; ok && !bytes.Equal(rec, r.stored) {
+					x.setFail("shown-offset-reassigned", fmt.Sprintf("offset %d was shown to a consumer with one record batch and is now acknowledged for a different one (%s)", off, after))
+				}
 			}
 		}
-		found := false
-		for b, body := range bodies {
-			if hasIdx[b] && bytes.Contains(body, r.stored) {
-				found = true
-			}
-		}
-		if !found {
-			x.setFail("acked-batch-not-in-s3", fmt.Sprintf("produce answered with error code 0 and base offset %d, but the record set is in no S3 segment that has an index (%s)", base, after))
+		if !sbDurable(bodies, hasIdx, r.stored) {
+			x.setFail("acked-batch-not-in-s3", fmt.Sprintf("produce answered with error code 0 and base offset %d, but the record set is in no S3 segment of the partition that has an index (%s)", base, after))
 		}
 	}
-	next, err := x.inner.NextOffset(context.Background(), "orders", 0)
+	next, err := x.inner.NextOffset(context.Background(), sbTopic, sbPart)
 	if err == nil && next > end {
-		x.setFail("hw-ahead-of-s3", fmt.Sprintf("store next_offset %d but S3 segments with an index end at %d (%s)", next, end-1, after))
+		x.setFail("hw-ahead-of-s3", fmt.Sprintf("store next_offset %d but the partition's S3 segments with an index end at %d (%s)", next, end-1, after))
+	}
+}
+
+func (x *sbExec) fetch(off int64) {
+	req := &kmsg.FetchRequest{MaxWaitMillis: 0, Topics: []kmsg.FetchRequestTopic{{Topic: sbTopic,
+		Partitions: []kmsg.FetchRequestTopicPartition{{Partition: sbPart, FetchOffset: off, PartitionMaxBytes: 1 << 20}}}}}
+	payload, err := x.h.handleFetch(context.Background(), &protocol.RequestHeader{CorrelationID: 7, APIVersion: 11}, req)
+	if err != nil || len(payload) == 0 {
+		return
+	}
+	resp := decodeKmsgResponse(x.t, 11, payload, kmsg.NewPtrFetchResponse)
+	if len(resp.Topics) != 1 || len(resp.Topics[0].Partitions) != 1 {
+		return
+	}
+	p := resp.Topics[0].Partitions[0]
+	if p.ErrorCode != 0 || len(p.RecordBatches) == 0 {
+		return
+	}
+	x.tags["fetch-data"] = true
+	bodies, hasIdx, _ := x.s3segs()
+	d := p.RecordBatches
+	for len(d) >= 61 {
+		bl := int(int32(binary.BigEndian.Uint32(d[8:12])))
+		if bl <= 0 || 12+bl > len(d) {
+			break
+		}
+		rec := d[:12+bl]
+		base := int64(binary.BigEndian.Uint64(rec[0:8]))
+		lod := int64(int32(binary.BigEndian.Uint32(rec[23:27])))
+		if !sbDurable(bodies, hasIdx, rec) {
+			x.setFail("fetch-shows-non-durable-record", fmt.Sprintf("Fetch(offset %d) returned the record batch at offsets [%d,%d] (high watermark %d) which is in no S3 segment of the partition: a crash now loses a record a consumer has seen", off, base, base+lod, p.HighWatermark))
+		}
+		for o := base; o <= base+lod && o < base+64; o++ {
+			if old, ok := x.shown[o]; ok && !bytes.Equal(old, rec) {
+				x.setFail("shown-offset-reassigned", fmt.Sprintf("offset %d was shown to a consumer with two different record batches", o))
+			}
+			x.shown[o] = append([]byte(nil), rec...)
+		}
+		d = d[12+bl:]
 	}
 }
 
@@ -347,11 +478,11 @@ func (x *sbExec) do(a sbAct) bool {
 		x.w.mu.Lock()
 		busy := x.running[a.T] != nil && !x.running[a.T].done
 		x.w.mu.Unlock()
-		if busy {
+		if busy || len(a.Raw) < 61 {
 			return false
 		}
 		x.produce(a.T, append([]byte(nil), a.Raw...))
-	case "seg", "idx", "cb":
+	case "seg", "idx", "cb", "no", "ct":
 		key := fmt.Sprintf("%s:%d", a.K, a.T)
 		if !x.has(key) {
 			return false
@@ -359,7 +490,22 @@ func (x *sbExec) do(a sbAct) bool {
 		if !a.Ok {
 			x.tags["fault"] = true
 		}
+		if a.K == "no" || a.K == "ct" {
+			x.tags["first-touch-gated"] = true
+		}
 		x.release(key, a.Ok)
+	case "fetch":
+		x.tags["fetch"] = true
+		inflight := false
+		for t := 0; t < sbNT; t++ {
+			if x.has(fmt.Sprintf("seg:%d", t)) || x.has(fmt.Sprintf("idx:%d", t)) {
+				inflight = true
+			}
+		}
+		if inflight {
+			x.tags["fetch-during-upload"] = true
+		}
+		x.fetch(a.Off)
 	case "crash":
 		x.w.mu.Lock()
 		x.w.dead[x.epoch] = true
@@ -370,12 +516,13 @@ func (x *sbExec) do(a sbAct) bool {
 		x.tags["crash"] = true
 		synctest.Wait()
 		// C06: every acknowledged batch is readable at its offset from the restored log
+		// (the restart itself goes through the real getPartitionLog, ungated)
 		anyAck := false
 		for _, r := range x.reqs {
 			anyAck = anyAck || r.acked
 		}
 		if anyAck {
-			plog, err := x.h.getPartitionLog(context.Background(), "orders", 0)
+			plog, err := x.h.getPartitionLog(context.Background(), sbTopic, sbPart)
 			if err != nil {
 				x.setFail("restore-failed", fmt.Sprintf("getPartitionLog after restart: %v", err))
 				return true
@@ -389,6 +536,9 @@ func (x *sbExec) do(a sbAct) bool {
 					x.setFail("acked-unreadable-after-restart", fmt.Sprintf("after restart Read(%d) does not return the acknowledged record set (err=%v)", r.base, err))
 				}
 			}
+			if next := plog.BufferedHighWatermark(); next <= x.maxAck {
+				x.setFail("offset-reuse-after-restart", fmt.Sprintf("after restart the log's next offset is %d but offset %d was acknowledged", next, x.maxAck))
+			}
 		}
 		return true
 	default:
@@ -396,11 +546,49 @@ func (x *sbExec) do(a sbAct) bool {
 	}
 	synctest.Wait()
 	for t := 0; t < sbNT; t++ {
-		if x.running[t] != nil && !x.running[t].done && !x.has(fmt.Sprintf("seg:%d", t)) && !x.has(fmt.Sprintf("idx:%d", t)) && !x.has(fmt.Sprintf("cb:%d", t)) {
-			x.tags["flush-parked"] = true
+		if x.running[t] != nil && !x.running[t].done && !x.has(fmt.Sprintf("seg:%d", t)) && !x.has(fmt.Sprintf("idx:%d", t)) && !x.has(fmt.Sprintf("cb:%d", t)) &&
+			!x.has(fmt.Sprintf("no:%d", t)) && !x.has(fmt.Sprintf("ct:%d", t)) {
+			x.tags["request-parked"] = true
 		}
 	}
 	return true
+}
+
+func sbBatch(lod, count int32, extra int, marker byte) []byte {
+	n := 61 + extra
+	d := make([]byte, n)
+	binary.BigEndian.PutUint32(d[8:12], uint32(n-12))
+	d[16] = 2
+	binary.BigEndian.PutUint32(d[23:27], uint32(lod))
+	binary.BigEndian.PutUint32(d[57:61], uint32(count))
+	for i := 61; i < n; i++ {
+		d[i] = marker
+	}
+	return d
+}
+
+// objects of partitions 10 and 13 of the same topic, holding more data than partition 1 will
+func (x *sbExec) putForeign() {
+	put := func(part int, base int64, lod int32, withIndex bool) {
+		raw := sbBatch(lod, lod+1, 5, byte(0xF0+part%10))
+		binary.BigEndian.PutUint64(raw[0:8], uint64(base))
+		art, err := storage.BuildSegment(storage.SegmentWriterConfig{IndexIntervalMessages: 1},
+			[]storage.RecordBatch{{BaseOffset: base, LastOffsetDelta: lod, MessageCount: lod + 1, Bytes: raw}}, time.Now())
+		if err != nil {
+			return
+		}
+		dir := fmt.Sprintf("%s/%s/%d/", x.h.s3Namespace, sbTopic, part)
+		x.w.objs[dir+fmt.Sprintf("segment-%020d.kfs", base)] = art.SegmentBytes
+		if withIndex {
+			x.w.objs[dir+fmt.Sprintf("segment-%020d.index", base)] = art.IndexBytes
+		}
+	}
+	x.w.mu.Lock()
+	defer x.w.mu.Unlock()
+	put(10, 0, 40, true)
+	put(10, 41, 9, true)
+	put(13, 0, 70, false)
+	put(13, 2, 5, true)
 }
 
 func sbRun(t *testing.T, cs sbCase) (string, string, map[string]bool, int) {
@@ -408,9 +596,14 @@ func sbRun(t *testing.T, cs sbCase) (string, string, map[string]bool, int) {
 	var tags map[string]bool
 	n := 0
 	synctest.Test(t, func(t *testing.T) {
-		x := &sbExec{t: t, w: &sbWorld{objs: map[string][]byte{}, pend: map[string]*sbGate{}, dead: map[int]bool{}}, tags: map[string]bool{}, maxAck: -1}
+		x := &sbExec{t: t, cs: cs, w: &sbWorld{objs: map[string][]byte{}, pend: map[string]*sbGate{}, dead: map[int]bool{}, gateInit: cs.GateInit},
+			tags: map[string]bool{}, maxAck: -1, shown: map[int64][]byte{}}
 		x.inner = metadata.NewInMemoryStore(defaultMetadata())
 		x.newHandler()
+		if cs.Foreign {
+			x.putForeign()
+			x.tags["foreign-partitions"] = true
+		}
 		for _, a := range cs.Plan {
 			if x.do(a) {
 				n++
@@ -430,31 +623,53 @@ func sbRun(t *testing.T, cs sbCase) (string, string, map[string]bool, int) {
 	return fail, key, tags, n
 }
 
-func sbBatch(lod, count int32, extra int, marker byte) []byte {
-	n := 61 + extra
-	d := make([]byte, n)
-	binary.BigEndian.PutUint32(d[8:12], uint32(n-12))
-	d[16] = 2
-	binary.BigEndian.PutUint32(d[23:27], uint32(lod))
-	binary.BigEndian.PutUint32(d[57:61], uint32(count))
-	for i := 61; i < n; i++ {
-		d[i] = marker
-	}
-	return d
-}
-
 func sbGen(r *vRand, maxActs int) sbCase {
-	var cs sbCase
+	cs := sbCase{Foreign: r.Chance(50)}
 	nthreads := r.Range(2, sbNT)
-	n := r.Range(6, maxActs)
 	marker := byte(1)
+	mkRaw := func() []byte {
+		c := int32(r.Range(1, 3))
+		marker++
+		return sbBatch(c-1, c, r.Range(1, 12), marker)
+	}
+	finish := func() {
+		for pass := 0; pass < 3; pass++ {
+			for t := 0; t < nthreads; t++ {
+				cs.Plan = append(cs.Plan, sbAct{K: "no", T: t, Ok: true}, sbAct{K: "ct", T: t, Ok: true}, sbAct{K: "no", T: t, Ok: true},
+					sbAct{K: "seg", T: t, Ok: true}, sbAct{K: "idx", T: t, Ok: true}, sbAct{K: "cb", T: t, Ok: true})
+			}
+		}
+		cs.Plan = append(cs.Plan, sbAct{K: "fetch", Off: int64(r.Intn(4))}, sbAct{K: "crash"}, sbAct{K: "produce", T: 0, Raw: sbBatch(0, 1, 2, 0xEE)},
+			sbAct{K: "no", T: 0, Ok: true}, sbAct{K: "seg", T: 0, Ok: true}, sbAct{K: "idx", T: 0, Ok: true}, sbAct{K: "cb", T: 0, Ok: true}, sbAct{K: "fetch", Off: 0})
+	}
+	if r.Chance(30) {
+		// concurrent FIRST touch of the partition (fresh topic, auto-create), init calls gated
+		cs.GateInit = true
+		for t := 0; t < nthreads; t++ {
+			cs.Plan = append(cs.Plan, sbAct{K: "produce", T: t, Raw: mkRaw()})
+		}
+		kinds := []string{"no", "ct", "no", "ct", "seg", "idx", "cb"}
+		n := r.Range(8, maxActs)
+		for i := 0; i < n; i++ {
+			t := r.Intn(nthreads)
+			switch {
+			case r.Chance(8):
+				cs.Plan = append(cs.Plan, sbAct{K: "fetch", Off: int64(r.Intn(3))})
+			case r.Chance(6):
+				cs.Plan = append(cs.Plan, sbAct{K: "produce", T: t, Raw: mkRaw()})
+			default:
+				cs.Plan = append(cs.Plan, sbAct{K: kinds[r.Intn(len(kinds))], T: t, Ok: !r.Chance(8)})
+			}
+		}
+		finish()
+		return cs
+	}
+	n := r.Range(6, maxActs)
 	for len(cs.Plan) < n {
 		t := r.Intn(nthreads)
-		switch r.Intn(12) {
+		switch r.Intn(14) {
 		case 0, 1, 2, 3:
-			c := int32(r.Range(1, 4))
-			cs.Plan = append(cs.Plan, sbAct{K: "produce", T: t, Raw: sbBatch(c-1, c, r.Range(1, 12), marker)})
-			marker++
+			cs.Plan = append(cs.Plan, sbAct{K: "produce", T: t, Raw: mkRaw()})
 		case 4, 5:
 			cs.Plan = append(cs.Plan, sbAct{K: "seg", T: t, Ok: !r.Chance(25)})
 		case 6, 7:
@@ -462,19 +677,22 @@ func sbGen(r *vRand, maxActs int) sbCase {
 		case 8:
 			cs.Plan = append(cs.Plan, sbAct{K: "seg", T: t, Ok: !r.Chance(20)}, sbAct{K: "idx", T: t, Ok: !r.Chance(20)}, sbAct{K: "cb", T: t, Ok: true})
 		case 9, 10:
-			cs.Plan = append(cs.Plan, sbAct{K: "cb", T: t, Ok: !r.Chance(15)})
+			cs.Plan = append(cs.Plan, sbAct{K: "cb", T: t, Ok: !r.Chance(30)})
+		case 11, 12:
+			cs.Plan = append(cs.Plan, sbAct{K: "fetch", Off: int64(r.Intn(6))})
 		default:
-			if r.Chance(35) {
+			switch {
+			case r.Chance(35):
 				cs.Plan = append(cs.Plan, sbAct{K: "crash"})
+			case r.Chance(50):
+				// the store update of an acknowledged flush is lost, then the broker dies:
+				// the restart finds the store behind S3 (by everything when it was the first flush)
+				cs.Plan = append(cs.Plan, sbAct{K: "seg", T: t, Ok: true}, sbAct{K: "idx", T: t, Ok: true}, sbAct{K: "cb", T: t, Ok: false}, sbAct{K: "crash"},
+					sbAct{K: "produce", T: t, Raw: mkRaw()}, sbAct{K: "seg", T: t, Ok: true}, sbAct{K: "idx", T: t, Ok: true}, sbAct{K: "cb", T: t, Ok: r.Bool()})
 			}
 		}
 	}
-	for pass := 0; pass < 3; pass++ {
-		for t := 0; t < nthreads; t++ {
-			cs.Plan = append(cs.Plan, sbAct{K: "seg", T: t, Ok: true}, sbAct{K: "idx", T: t, Ok: true}, sbAct{K: "cb", T: t, Ok: true})
-		}
-	}
-	cs.Plan = append(cs.Plan, sbAct{K: "crash"}, sbAct{K: "produce", T: 0, Raw: sbBatch(0, 1, 2, 0xEE)}, sbAct{K: "seg", T: 0, Ok: true}, sbAct{K: "idx", T: 0, Ok: true}, sbAct{K: "cb", T: 0, Ok: true})
+	finish()
 	return cs
 }
 
@@ -483,21 +701,23 @@ func TestVerifStorageBroker(t *testing.T) {
 	if prop == "" {
 		prop = "C01"
 	}
-	rep := vNewReport(prop, "real handler.handleProduce (acks=-1) x 2-3 concurrent producers on one partition under synctest, blocking fake S3 uploads with outcomes, delayed/failing UpdateOffsets on the real InMemoryStore, crash = new handler over the same S3 + store; non-trivial = a request parked in Flush behind another one, a fault, or a crash")
+	rep := vNewReport(prop, "real handler.handleProduce (acks=-1) x 2-3 concurrent producers on partition 1 of a fresh auto-created topic (concurrent first touch with gated NextOffset/CreateTopic in 30% of the cases; foreign objects of partitions 10 and 13 in S3 in 50%), blocking fake S3 uploads with outcomes, delayed/failing UpdateOffsets on the real InMemoryStore, real handleFetch at any point incl. during an upload, crash = new handler over the same S3 + store (restart through the real getPartitionLog with the store behind S3 by any amount); non-trivial = a request parked behind another one, a fault, a crash, a gated first touch or a fetch during an upload")
 	relevant := func(key string) bool {
 		switch prop {
 		case "C05":
 			return key == "hw-ahead-of-s3"
+		case "C02":
+			return key == "offset-assigned-twice" || key == "offset-reuse-after-restart" || key == "acked-batch-not-in-s3" || key == "second-partition-log"
 		case "C06":
-			return key != "hw-ahead-of-s3"
+			return key != "hw-ahead-of-s3" && key != "second-partition-log" && key != "offset-assigned-twice"
 		default:
-			return key == "acked-batch-not-in-s3" || key == "acked-unreadable-after-restart"
+			return key == "acked-batch-not-in-s3" || key == "acked-unreadable-after-restart" || key == "second-partition-log"
 		}
 	}
 	runOne := func(cs sbCase, label string) {
 		fail, key, tags, _ := sbRun(t, cs)
 		canon, _ := json.Marshal(cs)
-		rep.Count(string(canon), tags["flush-parked"] || tags["fault"] || tags["crash"])
+		rep.Count(string(canon), tags["request-parked"] || tags["fault"] || tags["crash"] || tags["first-touch-gated"] || tags["fetch-during-upload"])
 		keys := make([]string, 0, len(tags))
 		for k := range tags {
 			keys = append(keys, k)
@@ -511,7 +731,7 @@ func TestVerifStorageBroker(t *testing.T) {
 		if fail != "" && relevant(key) {
 			shr := cs
 			shr.Plan = vShrink(cs.Plan, func(p []sbAct) bool {
-				f, k, _, _ := sbRun(t, sbCase{Plan: p})
+				f, k, _, _ := sbRun(t, sbCase{GateInit: cs.GateInit, Foreign: cs.Foreign, Plan: p})
 				return f != "" && k == key
 			})
 			f2, k2, _, _ := sbRun(t, shr)
@@ -532,18 +752,33 @@ func TestVerifStorageBroker(t *testing.T) {
 		}
 	} else {
 		b := func(m byte) []byte { return sbBatch(0, 1, 4, m) }
+		P := func(t int, raw []byte) sbAct { return sbAct{K: "produce", T: t, Raw: raw} }
+		G := func(k string, t int, ok bool) sbAct { return sbAct{K: k, T: t, Ok: ok} }
+		FE := func(off int64) sbAct { return sbAct{K: "fetch", Off: off} }
+		CR := sbAct{K: "crash"}
 		corpus := []sbCase{
 			// B (t=1) drains A's batch too; A waits in Flush; B's segment upload fails
-			{Plan: []sbAct{{K: "produce", T: 1, Raw: b(1)}, {K: "produce", T: 0, Raw: b(2)}, {K: "produce", T: 2, Raw: b(3)}, {K: "seg", T: 1, Ok: false}, {K: "idx", T: 1, Ok: true},
-				{K: "seg", T: 0, Ok: true}, {K: "idx", T: 0, Ok: true}, {K: "seg", T: 2, Ok: true}, {K: "idx", T: 2, Ok: true}, {K: "cb", T: 0, Ok: true}, {K: "cb", T: 2, Ok: true}, {K: "crash"}}},
-			{Plan: []sbAct{{K: "produce", T: 0, Raw: b(1)}, {K: "seg", T: 0, Ok: true}, {K: "idx", T: 0, Ok: true}, {K: "cb", T: 0, Ok: false}, {K: "crash"},
-				{K: "produce", T: 1, Raw: b(2)}, {K: "seg", T: 1, Ok: true}, {K: "crash"}, {K: "produce", T: 1, Raw: b(3)}, {K: "seg", T: 1, Ok: true}, {K: "idx", T: 1, Ok: true}, {K: "cb", T: 1, Ok: true}}},
+			{Plan: []sbAct{P(1, b(1)), P(0, b(2)), P(2, b(3)), G("seg", 1, false), G("idx", 1, true), G("seg", 0, true), G("idx", 0, true), G("seg", 2, true), G("idx", 2, true),
+				G("cb", 0, true), G("cb", 2, true), CR}},
+			// the store update of the FIRST flush is lost (store stays 0), crash, produce again; orphan segment; foreign partitions present
+			{Foreign: true, Plan: []sbAct{P(0, b(1)), G("seg", 0, true), G("idx", 0, true), G("cb", 0, false), CR, P(1, b(2)), G("seg", 1, true), CR,
+				P(1, b(3)), G("seg", 1, true), G("idx", 1, true), G("cb", 1, true), FE(0), CR, P(2, b(4)), G("seg", 2, true), G("idx", 2, true), G("cb", 2, true)}},
+			// two producers touch the fresh partition at the same time; CreateTopic is slow for one
+			// of them while the other one's S3 PUT is in flight
+			{GateInit: true, Plan: []sbAct{P(0, b(1)), P(1, b(2)), G("no", 0, true), G("no", 1, true), G("ct", 0, true), G("no", 0, true), G("ct", 1, true), G("no", 1, true),
+				G("seg", 0, true), G("idx", 0, true), G("seg", 1, true), G("idx", 1, true), G("cb", 0, true), G("cb", 1, true), G("seg", 1, true), G("idx", 1, true), G("cb", 1, true), FE(0), CR}},
+			// Fetch while a produce is between AppendBatch and the end of its flush, then the broker dies
+			{Plan: []sbAct{P(0, b(1)), FE(0), G("seg", 0, true), FE(0), G("idx", 0, true), G("cb", 0, true), FE(0), P(1, b(2)), FE(1), FE(0), CR,
+				P(2, b(3)), G("seg", 2, true), G("idx", 2, true), G("cb", 2, true), FE(1)}},
+			// restart of the short-id partition next to partitions 10 and 13 that hold more data
+			{Foreign: true, Plan: []sbAct{P(0, b(1)), G("seg", 0, true), G("idx", 0, true), G("cb", 0, true), CR, P(1, b(2)), G("seg", 1, true), G("idx", 1, true), G("cb", 1, true), FE(0), CR,
+				P(0, b(3)), G("seg", 0, true), G("idx", 0, true), G("cb", 0, false), CR, FE(0)}},
 		}
 		for _, cs := range corpus {
 			runOne(cs, "corpus")
 		}
 		r := vNewRand(vSeed()*7919 + 17)
-		n := vN(80, 800)
+		n := vN(120, 900)
 		for i := 0; i < n; i++ {
 			runOne(sbGen(r.Fork(), 28), "gen")
 		}
